@@ -14,6 +14,7 @@ from ..ref import quat as rq
 PROP = "C05"
 LEVEL = "exploration"
 SHARDS = {"quick": 16, "thorough": 16}
+THOROUGH_DEPTH = 4      # thorough tier = this many times the base thorough budget (VERIF_DEPTH overrides)
 TIME_CAP = {"quick": 200, "thorough": 2400}
 DEG = np.pi / 180.0
 
@@ -89,7 +90,7 @@ def e0_of(rng, reg):
 
 def generate(rng, tier, shard, nshards):
     rows = [(n, lab) for n, rr in TABLE.items() for (lab, kw, N, tol, tiers) in rr if ("q" if tier == "quick" else "t") in tiers]
-    reps = 1 if tier == "quick" else 3
+    reps = 1 if tier == "quick" else gens.reps(3, tier)
     k = 0
     for rep in range(reps):
         for (name, lab) in rows:
